@@ -43,7 +43,7 @@ def report (fn input : String) (gen model : String) : IO Unit :=
 /-- the inputs of `xs` on which `gen` and `model` print differently: the first one of each KIND of disagreement (the first
     word of the two answers — accepted where the model rejects is another kind than rejected where it accepts), at most four -/
 def firstDiff {α} (fn : String) (xs : List α) (inp : α → String) (gen model : α → String) : IO Nat := do
-  let kind (t : String) : String := (t.splitOn " ").headD "" |>.take 12
+  let kind (t : String) : String := String.ofList ((t.toList.takeWhile (· != ' ')).take 12)
   let mut seen : List (String × String) := []
   for x in xs do
     let g := gen x
